@@ -8,7 +8,7 @@ MergeOverlapping with its `lastTl` behaviour), `fragment_scorer_simple.go`, `hig
 Go `int` is `Int` (no overflow: offsets are far below 2^62), `[]byte` is `List (BitVec 8)` with
 cap = len, a slice expression that Go would reject at run time is `none` (= panic).
 The functions that the proposed repairs touch take a `Variant` (or one of its flags): `pinned` is the tree
-as pinned, the other variants are the same code with the guards of /verif/work/C20/fix-1..3.diff; which
+as pinned, the other variants are the same code with the guards of /verif/work/C20/fix-1..5.diff; which
 variant /repo is, is read off the source on every run (`BlugeGen.C20.variant`).
 Specification-side definitions (validity, rune boundaries, stripping the markup, marks) are at the end.
 Core Lean only. -/
@@ -118,33 +118,42 @@ def TermLocation.overlaps (tl other : TermLocation) : Bool :=
   else if tl.start ≥ other.start ∧ tl.start < other.stop then true
   else false
 
-/-- insertion into a list sorted by `Less(i,j) = t[i].Start < t[j].Start` (stable) -/
-def insertByStart (x : TermLocation) : List TermLocation → List TermLocation
-  | [] => [x]
-  | y :: ys => if x.start < y.start then x :: y :: ys else y :: insertByStart x ys
+/-- (t TermLocations) Less(i, j) with a = t[i], b = t[j]: `t[i].Start < t[j].Start`; a tree with repair 4
+(`tb`, work/C20/fix-4) compares (Start, End) lexicographically -/
+def lessTL (tb : Bool) (a b : TermLocation) : Bool :=
+  if tb then decide (a.start < b.start) || (decide (a.start = b.start) && decide (a.stop < b.stop))
+  else decide (a.start < b.start)
 
-/-- OrderTermLocations: flatten the map and `sort.Sort` by Start. The Go sort is not stable and the
-map iteration order is random, so the order among equal Starts is unspecified; the model sorts
-stably and the correspondence only feeds `bestFragments` location sets with distinct Starts. -/
-def orderTermLocations (locs : List TermLocation) : List TermLocation :=
-  locs.foldr insertByStart []
+/-- insertion into a list sorted by `Less` (stable) -/
+def insertBy (tb : Bool) (x : TermLocation) : List TermLocation → List TermLocation
+  | [] => [x]
+  | y :: ys => if lessTL tb x y then x :: y :: ys else y :: insertBy tb x ys
+
+/-- OrderTermLocations: flatten the map and `sort.Sort` by `Less`. The Go sort is not stable and the
+map iteration order is random, so the order among locations that `Less` does not separate is
+unspecified: `orderTermLocations` is the STABLE sort of the list handed in, one of the admissible
+orders. Everything downstream (`bestSelectionOrd`, `bestFragmentsOrd`) takes the ordered list as an
+argument, and the theorems quantify over every `Less`-sorted permutation (`sortedFor`). -/
+def orderTermLocations (tb : Bool) (locs : List TermLocation) : List TermLocation :=
+  locs.foldr (insertBy tb) []
 
 /-- the loop of MergeOverlapping once `lastTl` is set: `lastTl` is never advanced, every later
-location that overlaps it is nil-ed and *overwrites* its End -/
-def mergeLoop (last : TermLocation) : List TermLocation → TermLocation × List (Option TermLocation)
+location that overlaps it is nil-ed and *overwrites* its End (`lastTl.End = tl.End`); a tree with
+repair 5 (`mx`, work/C20/fix-5) keeps the larger End (`if tl.End > lastTl.End { lastTl.End = tl.End }`) -/
+def mergeLoop (mx : Bool) (last : TermLocation) : List TermLocation → TermLocation × List (Option TermLocation)
   | [] => (last, [])
   | tl :: rest =>
     if last.overlaps tl then
-      let r := mergeLoop { last with stop := tl.stop } rest
+      let r := mergeLoop mx { last with stop := if mx && decide (tl.stop ≤ last.stop) then last.stop else tl.stop } rest
       (r.1, none :: r.2)
     else
-      let r := mergeLoop last rest
+      let r := mergeLoop mx last rest
       (r.1, some tl :: r.2)
 
 /-- (t TermLocations) MergeOverlapping(), result = the slice afterwards (nil = `none`) -/
-def mergeOverlapping : List TermLocation → List (Option TermLocation)
+def mergeOverlapping (mx : Bool) : List TermLocation → List (Option TermLocation)
   | [] => []
-  | tl :: rest => let r := mergeLoop tl rest; some r.1 :: r.2
+  | tl :: rest => let r := mergeLoop mx tl rest; some r.1 :: r.2
 
 /-! ## fragment_simple.go -/
 
@@ -165,15 +174,22 @@ deriving DecidableEq, Repr
 * `sizeGuard`: the four `r == utf8.RuneError` tests of `Fragment` also require `size <= 1` (work/C20/fix-1);
 * `locGuard`: `Fragment` ignores locations with `Start < 0` or `End < Start`, both formatters skip a
   location with `End < Start` (work/C20/fix-2);
-* `runeCut`: with no location the single fragment is `fragmentSize` runes, not bytes (work/C20/fix-3). -/
+* `runeCut`: with no location the single fragment is `fragmentSize` runes, not bytes (work/C20/fix-3);
+* `tieBreak`: `TermLocations.Less` compares (Start, End), so that the sorted order is unique up to locations
+  with the same span (work/C20/fix-4);
+* `mergeMax`: `MergeOverlapping` keeps the larger End when it absorbs a location (work/C20/fix-5). -/
 structure Variant where
   sizeGuard : Bool
   locGuard : Bool
   runeCut : Bool
+  tieBreak : Bool
+  mergeMax : Bool
 deriving DecidableEq, Repr
 
-def pinned : Variant := ⟨false, false, false⟩
-def repaired : Variant := ⟨true, true, true⟩
+def pinned : Variant := ⟨false, false, false, false, false⟩
+/-- the tree after the three fix: commits a31c68e, 1070e7e, 997011d (repairs 1–3) -/
+def tree3 : Variant := ⟨true, true, true, false, false⟩
+def repaired : Variant := ⟨true, true, true, true, true⟩
 
 /-- the fragmenter's test after a decode: `r == utf8.RuneError` (pinned) or `r == utf8.RuneError && size <= 1` -/
 def bails (guard : Bool) (rs : Nat × Nat) : Bool := rs.1 == runeError && (!guard || decide (rs.2 ≤ 1))
@@ -415,16 +431,24 @@ def mapM' {α β : Type} (g : α → Option β) : List α → Option (List β)
     | some y, some ys => some (y :: ys)
     | _, _ => none
 
-/-- the fragments BestFragments selects (scored), before formatting -/
-def bestSelection (v : Variant) (orig : Bytes) (fsize num : Int) (locs : List TermLocation) : Option (List Fragment) :=
-  (fragment v orig fsize (orderTermLocations locs)).map fun frags =>
+/-- the fragments BestFragments selects (scored), before formatting; `locs` = the map's locations (the scorer
+walks the map), `ot` = the slice OrderTermLocations returned -/
+def bestSelectionOrd (v : Variant) (orig : Bytes) (fsize num : Int) (locs ot : List TermLocation) : Option (List Fragment) :=
+  (fragment v orig fsize ot).map fun frags =>
     selectBest num (frags.map fun f => { f with score := scoreOf locs f })
 
-/-- SimpleHighlighter.BestFragments(tlm, orig, num); `locs` = the map's locations -/
-def bestFragments (v : Variant) (fm : Fmt) (orig : Bytes) (fsize num : Int) (locs : List TermLocation) : Option (List Bytes) :=
-  match bestSelection v orig fsize num locs with
+/-- SimpleHighlighter.BestFragments(tlm, orig, num) when OrderTermLocations returned `ot` -/
+def bestFragmentsOrd (v : Variant) (fm : Fmt) (orig : Bytes) (fsize num : Int) (locs ot : List TermLocation) : Option (List Bytes) :=
+  match bestSelectionOrd v orig fsize num locs ot with
   | none => none
-  | some best => mapM' (render v fm orig (mergeOverlapping (orderTermLocations locs))) best
+  | some best => mapM' (render v fm orig (mergeOverlapping v.mergeMax ot)) best
+
+/-- … with the stable order -/
+def bestSelection (v : Variant) (orig : Bytes) (fsize num : Int) (locs : List TermLocation) : Option (List Fragment) :=
+  bestSelectionOrd v orig fsize num locs (orderTermLocations v.tieBreak locs)
+
+def bestFragments (v : Variant) (fm : Fmt) (orig : Bytes) (fsize num : Int) (locs : List TermLocation) : Option (List Bytes) :=
+  bestFragmentsOrd v fm orig fsize num locs (orderTermLocations v.tieBreak locs)
 
 /-! ## specification side: validity, rune boundaries, stripping the markup -/
 
@@ -457,6 +481,64 @@ def sortedByStart : List TermLocation → Bool
   | [] => true
   | [_] => true
   | a :: b :: rest => a.start ≤ b.start && sortedByStart (b :: rest)
+
+/-- what `sort.Sort` guarantees about the slice OrderTermLocations returns, whatever the (unstable) algorithm
+and the map iteration order: no later element is `Less` than an earlier one (adjacent form; `Less` is a
+strict weak order, so this is the pairwise statement) -/
+def sortedFor (tb : Bool) : List TermLocation → Bool
+  | [] => true
+  | [_] => true
+  | a :: b :: rest => !lessTL tb b a && sortedFor tb (b :: rest)
+
+/-- locations with the same Start have the same End (then `Less` separates all locations with different spans) -/
+def tiesAgree (locs : List TermLocation) : Bool :=
+  locs.all fun a => locs.all fun b => a.start != b.start || a.stop == b.stop
+
+/-- Ends do not decrease along the list: no location is nested in an earlier one. True of the tokens of a
+tokenizer (disjoint) and of the CJK bigrams (overlapping, both ends increasing). -/
+def monotoneStops : List TermLocation → Bool
+  | [] => true
+  | [_] => true
+  | a :: b :: rest => a.stop ≤ b.stop && monotoneStops (b :: rest)
+
+/-- both ends strictly increase along the list and no span is empty: the tokens of a tokenizer (disjoint), any
+selection of them (what a search returns), and the CJK bigrams formed from adjacent tokens -/
+def advancing : List TermLocation → Bool
+  | [] => true
+  | [a] => a.start < a.stop
+  | a :: b :: rest => a.start < a.stop && a.start < b.start && a.stop < b.stop && advancing (b :: rest)
+
+/-- the spans of the CJK bigram filter on a run of adjacent single-rune tokens: token i joined with token i+1 -/
+def bigramSpans : List TermLocation → List TermLocation
+  | a :: b :: rest => { term := a.term ++ b.term, pos := a.pos, start := a.start, stop := b.stop } :: bigramSpans (b :: rest)
+  | _ => []
+
+/-- closed form of what MergeOverlapping does to a list sorted by Start whose head has End `e`:
+(how many of the following locations the head absorbs, the End the head is left with). The absorbed locations
+are the maximal prefix in which each one starts before the head's CURRENT End; that End is overwritten by the
+End of each absorbed location (`mx = false`: the End of the LAST one absorbed, not the largest) or only grows
+(`mx = true`, repair 5). Everything after the absorbed prefix is left as it is (`lastTl` is never advanced). -/
+def absorbRun (mx : Bool) (e : Int) : List TermLocation → Nat × Int
+  | [] => (0, e)
+  | tl :: rest =>
+    if tl.start < e then
+      let r := absorbRun mx (if mx && decide (tl.stop ≤ e) then e else tl.stop) rest
+      (r.1 + 1, r.2)
+    else (0, e)
+
+/-- the spans "one location, or the union of a run of overlapping ones" starting with a location of span
+[s, e): the run grows while the next location (in list order) starts inside the union so far -/
+def chainFrom (s e : Int) : List TermLocation → List (Int × Int)
+  | [] => [(s, e)]
+  | tl :: rest => (s, e) :: (if tl.start < e then chainFrom s (if tl.stop ≤ e then e else tl.stop) rest else [])
+
+/-- every span that is exactly one location or the union of a run of consecutive overlapping locations -/
+def runUnions : List TermLocation → List (Int × Int)
+  | [] => []
+  | a :: rest => chainFrom a.start a.stop rest ++ runUnions rest
+
+/-- the property text's "every marked span is exactly one matched term occurrence or a run of overlapping ones" -/
+def markOK (ot : List TermLocation) (m : Int × Int) : Bool := (runUnions ot).contains m
 
 /-- a location is in range and on rune boundaries -/
 def locOK (orig : Bytes) (l : TermLocation) : Bool :=
